@@ -107,6 +107,12 @@ func analogIdentifier(ie *input.InputEvent, negative bool) string {
 func (d *Device) handleABSEvent(ie *input.InputEvent) {
 	analog, analogOk := d.config.KeyMappings[d.mapping].Analog[ie.Source.Name][ie.Event.Code]
 
+	if !analogOk || analog.MappingType != config.AnalogActionSim {
+		// and for actions: the axis holds an action from a mapping in which it triggered actions,
+		// in this mapping it has another role (or none), so its way back can only be seen here
+		d.releaseHeldAxisAction(analogIdentifier(ie, false), "")
+	}
+
 	if !analogOk || analog.MappingType != config.AnalogKeySim {
 		// same workaround as for keys: the mapping has been changed while the axis was emulating a held key
 		// and the new mapping does not treat it as a key anymore
@@ -301,9 +307,12 @@ func (d *Device) handleABSEvent(ie *input.InputEvent) {
 			value = value*2 - 1.0
 		}
 
+		identifier := analogIdentifier(ie, false)
+
 		// a held pair of actions blocks new presses only, releases always have to be registered
 		switch {
 		case value <= -0.5:
+			d.releaseHeldAxisAction(identifier, analog.ActionNeg)
 			d.releaseAxisAction(analog.Action)
 
 			if d.checkDoubleActions() {
@@ -311,10 +320,13 @@ func (d *Device) handleABSEvent(ie *input.InputEvent) {
 			}
 			d.invokeActionPress(analog.ActionNeg)
 			d.actionTracker[analog.ActionNeg] = true
+			d.axisActionTracker[identifier] = analog.ActionNeg
 		case value > -0.49 && value < 0.49:
+			d.releaseHeldAxisAction(identifier, "")
 			d.releaseAxisAction(analog.ActionNeg)
 			d.releaseAxisAction(analog.Action)
 		case value >= 0.5:
+			d.releaseHeldAxisAction(identifier, analog.Action)
 			d.releaseAxisAction(analog.ActionNeg)
 
 			if d.checkDoubleActions() {
@@ -322,6 +334,7 @@ func (d *Device) handleABSEvent(ie *input.InputEvent) {
 			}
 			d.invokeActionPress(analog.Action)
 			d.actionTracker[analog.Action] = true
+			d.axisActionTracker[identifier] = analog.Action
 		}
 	default:
 		log.Info(fmt.Sprintf("unexpected AnalogID type: %+v", analog.MappingType), d.logFields(
